@@ -30,6 +30,17 @@ pub(crate) fn k_dir_read_from<Fd: AsFd>(fd: Fd) -> rx::io::Result<Dir> {
     Err(rx::io::Errno::from_raw_os_error(c.errno))
 }
 
+/// for scenarios in which the directory listing must not be reached at all (the scan open
+/// fails): reaching it is a failure, and nothing behind it is explored.  (With the ordinary
+/// stub symex cannot fold the niche discriminant of `io::Result<Dir>` and explores the `Ok`
+/// arm on garbage: `Dir::read`, the child loop and the recursive `remove_all` instantiation,
+/// nested to the unwind bound -- that, not the error handling, exhausted 30 GB.)
+pub(crate) fn k_dir_read_from_unreachable<Fd: AsFd>(_fd: Fd) -> rx::io::Result<Dir> {
+    assert!(false, "directory listing reached although the scan open failed");
+    kani::assume(false);
+    Err(rx::io::Errno::from_raw_os_error(libc::EIO))
+}
+
 fn refused(name: &[u8]) -> bool {
     let mut slash = false;
     let mut i = 0;
@@ -351,6 +362,14 @@ macro_rules! scan_h {
     };
 }
 // removal failed with EACCES, the scan open fails with EACCES too (unreadable / undeletable entry)
-scan_h!(dir_scan_open_fails, [P_FAIL, P_FAIL, P_ANY, P_ANY], libc::EACCES);
+#[kani::proof]
+#[kani::unwind(8)]
+#[kani::stub(crate::utils::dir::remove_inode, k_remove_inode)]
+#[kani::stub(crate::syscalls::openat_follow, k_openat_follow)]
+#[kani::stub(rx::fs::Dir::read_from, k_dir_read_from_unreachable)]
+#[kani::stub(alloc::fmt::format, k_format)]
+fn dir_scan_open_fails() {
+    scan_body([P_FAIL, P_FAIL, P_ANY, P_ANY], libc::EACCES);
+}
 // removal failed with ENOTEMPTY, scan open succeeds, listing fails with an arbitrary errno
 scan_h!(dir_scan_listing, [P_FAIL, P_OK, P_ANY, P_ANY], libc::ENOTEMPTY);
